@@ -12,7 +12,7 @@ EXPLANATION = (
     "R01c every value written to an outgoing link is the value removed from the source (writer/reader agreement inside resolve_outflows); "
     "R01d update() reads step ti-1, writes step ti, subtracts the cached outflow once and adds every inlink once; "
     "R01e junction balance passes on all inflow, residual = inflow - others, junctions are balanced every step in flow order; "
-    "R01f loop order advance -> update_comps -> update_pars -> update_links.  The arithmetic identity itself (1e-9 balance) is a runtime quantity and is not decided."
+    "R01f loop order advance -> update_comps -> update_pars -> update_links; R01g assigning a total to a timed compartment spreads it over the rows by dividing by exactly the number of rows, and its size is the sum over rows (the initial junction flush adds to downstream compartments through these two accessors).  The arithmetic identity itself (1e-9 balance) is a runtime quantity and is not decided."
 )
 
 STORAGE = {"vals", "_vals"}
@@ -29,6 +29,7 @@ def run(ctx):
     ctx.each(r01d, ctx, repo, T)
     ctx.each(r01e, ctx, repo, T)
     ctx.each(r01f, ctx, repo, T)
+    ctx.each(r01g, ctx, repo, T)
 
 
 # ---------------------------------------------------------------------------------------------- R01a
@@ -552,3 +553,49 @@ def r01f(ctx, repo, T):
     # every iteration reaches update_links
     last = seq[-1][1]
     ctx.check(not cfg.path_exists(cfg.ids(adv), head, avoid_ids=cfg.ids(last)), "R01f", fi, last, "every iteration ends with update_links", "an iteration can complete without update_links()")
+
+
+# ---------------------------------------------------------------------------------------------- R01g
+def r01g(ctx, repo, T):
+    ctx.rule("R01g", "TimedCompartment accessors conserve people: __setitem__ stores total / n_rows in every row (n_rows = self._vals.shape[0]); __getitem__ and vals sum over the row axis")
+    si = repo.func("model", "TimedCompartment.__setitem__")
+    me = K.self_name(si)
+    rows = "%s._vals.shape[0]" % me
+    st = [(s, t, v) for s, t, k, v in astq.stores(si.node) if k == "assign" and isinstance(t, ast.Subscript) and ast.unparse(t.value) == "%s._vals" % me]
+    ctx.require(len(st) == 1, "R01g: expected one store to self._vals in TimedCompartment.__setitem__, found %d" % len(st))
+    s_, t_, v_ = st[0]
+    row = K.row_index_of(t_)
+    ctx.check(isinstance(row, ast.Slice) and row.lower is None and row.upper is None, "R01g", si, s_, "every row is assigned", "TimedCompartment.__setitem__ assigns rows `%s` only: part of the total is dropped or left over from before" % (ast.unparse(row) if row is not None else "?"))
+    good = False
+    if isinstance(v_, ast.BinOp) and isinstance(v_.op, ast.Div):
+        den = v_.right
+        # the denominator must evaluate to the number of rows in every row: n_rows, or n_rows * ones((n_rows, 1))
+        facs = []
+
+        def flat(x):
+            if isinstance(x, ast.BinOp) and isinstance(x.op, ast.Mult):
+                flat(x.left)
+                flat(x.right)
+            else:
+                facs.append(x)
+
+        flat(den)
+        n_rows = [f for f in facs if ast.unparse(f) == rows]
+        ones = [f for f in facs if isinstance(f, ast.Call) and ast.unparse(f.func) in ("np.ones", "np.ones_like")]
+        other = [f for f in facs if f not in n_rows and f not in ones]
+        good = len(n_rows) == 1 and not other and "value" in {x.id for x in ast.walk(v_.left) if isinstance(x, ast.Name)}
+    ctx.check(good, "R01g", si, s_, "each row receives total / n_rows", "TimedCompartment.__setitem__ stores `%s`: the rows do not add up to the total that was assigned (the initial junction flush and the initial conditions go through this accessor)" % ast.unparse(v_)[:100])
+    for q in ("TimedCompartment.__getitem__", "TimedCompartment.vals", "TimedLink.__getitem__", "TimedLink.vals"):
+        fi = repo.func("model", q)
+        rets = [r for r in own_nodes(fi.node) if isinstance(r, ast.Return) and r.value is not None]
+        def whole_rows(e):
+            # self._vals  or  self._vals[:, <t>]
+            if isinstance(e, ast.Attribute) and e.attr == "_vals":
+                return True
+            if isinstance(e, ast.Subscript) and isinstance(e.value, ast.Attribute) and e.value.attr == "_vals":
+                r_ = K.row_index_of(e)
+                return isinstance(r_, ast.Slice) and r_.lower is None and r_.upper is None and r_.step is None
+            return False
+
+        ok = bool(rets) and all(isinstance(r.value, ast.Call) and isinstance(r.value.func, ast.Attribute) and r.value.func.attr == "sum" and whole_rows(r.value.func.value) and any(k.arg == "axis" and isinstance(k.value, ast.Constant) and k.value.value == 0 for k in r.value.keywords) for r in rets)
+        ctx.check(ok, "R01g", fi, rets[0] if rets else fi.node, "%s is the sum over the row axis" % q, "%s does not return the sum over all rows of the keyring: the reported size/flow differs from the people held" % q)
